@@ -59,6 +59,7 @@ pub fn dispatch(args: &[String]) -> i32 {
             let path = args.get(1).unwrap_or_else(|| machinery("usage: vh replay <file>"));
             replay(path)
         }
+        Some("worker") => crate::fparse::worker_main(),
         Some("genfix") => crate::fixtures::generate(),
         Some("checkfix") => {
             let (n, fails) = crate::fixtures::check();
@@ -114,6 +115,8 @@ pub fn run_check(prop: &str, tier: &str) -> i32 {
             crate::fixtures::report(&mut run);
             run.finish()
         }
+        "C14" => crate::fparse::check(prop, tier),
+        "C15" => crate::parsex::check(prop, tier),
         "C17" => histex_check(prop, tier, &[hp("trace", 4, 6), hp("rot", 3, 4)], &["C17."], HX),
         "C18" => histex_check(prop, tier, &[hp("recaps", 3, 4)], &["C18."], HX),
         _ => machinery(&format!("no check for {prop}")),
@@ -138,6 +141,16 @@ pub fn replay(path: &str) -> i32 {
                 0
             }
         }
+        Some("fparse") => match crate::fparse::replay(v["type"].as_str().unwrap_or(""), v["input"].as_str().unwrap_or("")) {
+            Some((c, d)) => {
+                println!("REPRODUCED {c}: {d}");
+                1
+            }
+            None => {
+                println!("not reproduced");
+                0
+            }
+        },
         _ => machinery("unknown replay engine"),
     }
 }
